@@ -297,6 +297,7 @@ def via_env(op, items, mode):
     return pipes[0][1]
 
 
+POLY_OPS = ("pshuffle", "eshuffle", "take", "slice", "reservoir", "riffle", "identity", "chunk", "params")
 ENV_OPS = ("eshuffle", "take", "slice", "reservoir", "sort", "where", "riffle", "chunk", "params", "batch")
 
 
@@ -455,7 +456,10 @@ class C09(Property):
             "around the length, strict, slice start/stop/step incl. None, where-ranges exact/one-sided/two-sided around the actual counts, "
             "sort keys (none, indices, names, missing sparse keys, duplicates of key values), riffle spacing 0-6, batch sizes 0-N+1, cache "
             "read histories with abandoned reads; 12 % collections of 2-3 different environments behind one Environments shortcut, read in a "
-            "PRNG-chosen order with re-reads and abandoned reads; 8 % additionally through BatchSafe on the plain and on the batched input; non-trivial = the input has >= 2 interactions and the filter is not Identity/Chunk/Params; "
+            "PRNG-chosen order with re-reads and abandoned reads; 6 % environments x filters products (Environments.filter([f..]), shuffle(seeds=[..]), "
+            "reservoir(n, seeds=[..])) with the member order compared; 4 % hand-made Unbatch inputs (fully batched with uneven sizes, un-batched, mixed "
+            "cells, numbers / nested lists); 15 % of the accessor-free filters additionally through BatchSafe on hand-made batches of uneven sizes "
+            "incl. an empty first batch; 8 % additionally through BatchSafe on the plain and on the batched input; non-trivial = the input has >= 2 interactions and the filter is not Identity/Chunk/Params; "
             "distinct by canonical JSON of the case")
     trusted_base = [
         "Reservoir's W = W*r1**x, S = floor(log(r2,1-W)), slot = int(r3*n) are evaluated by the model itself on Lean `Float` (IEEE doubles, the C "
@@ -474,11 +478,16 @@ class C09(Property):
         "(batch_unbatch_id_partial + counterexamples; batchsafe_eq_plain uses the same hypothesis)",
         "one reader at a time on a Cache object (interleaved concurrent generators belong to C04/C19)",
         "torch batches are excluded (optional package not installed)",
+        "inside BatchSafe only accessor-free inner filters (Take, Slice, Shuffle, Riffle, Reservoir, Identity/Chunk/Params) are run on hand-made "
+        "uneven / empty-first batches: with an empty first batch the inner filter sees whole batches, which Sort/Where cannot read",
+        "Unbatch's values are modelled as numbers or (nested) lists; strings (indexable like lists) are not generated",
     ]
     partial_theorems = {
         "reservoir_total_partial": "no exception provided no iteration's float computation raises (statement about arbitrary step lists)",
         "reservoir_total_under_laws": "no exception under the stated laws of the arithmetic (FloatLaws); real arithmetic satisfies them (float_laws_satisfiable), IEEE doubles "
                                       "break oneMinus_unit once W < 2^-53 (reservoir_underflow_counterexample) - needs a skip of > 10^9 items first, unreachable for real streams",
+        "unbatch_rows_partial": "Unbatch delivers the rows in order only for fully batched interactions that carry the first batched key of the first one; mixed plain/batched "
+                                "sequences are excluded inputs (unbatch_mixed_counterexample 1-3: spurious rows, TypeError, batches passed through)",
         "batch_unbatch_id_partial": "needs one common key set per sequence; Batch reads the keys of the first interaction only (counterexamples batch_unbatch_id_counterexample/2)",
     }
 
@@ -579,9 +588,80 @@ class C09(Property):
     MULTI_OPS = ("eshuffle", "take", "slice", "reservoir", "sort", "where", "riffle", "batch", "cache", "chunk", "params", "identity")
 
     def generate(self, rng, tier, boundary=False):
-        if rng.chance(0.12):
+        r = rng.below(100)
+        if r < 11:
             return self.generate_multi(rng, tier, boundary)
+        if r < 17:
+            return self.generate_product(rng, tier, boundary)
+        if r < 21:
+            return self.generate_unbatchg(rng)
         return self.generate_single(rng, tier, boundary)
+
+    def generate_product(self, rng, tier, boundary=False):
+        """2-3 environments x 2-3 filters of one kind through Environments.filter([...]) / shuffle(seeds=[...]) / reservoir(n, seeds=[...])"""
+        base = self.generate_multi(rng, tier, boundary)
+        for _ in range(50):
+            if base["op"]["method"]["name"] in ("eshuffle", "take", "slice", "reservoir", "riffle", "where", "sort"):
+                break
+            base = self.generate_multi(rng, tier, boundary)
+        m0 = base["op"]["method"]
+        name = m0["name"]
+        nf = rng.choice([2, 2, 3])
+        methods = [m0]
+        how = "filter"
+        seeds_used = {m0["seed"]["v"]} if "seed" in m0 else set()
+        for _ in range(nf - 1):
+            m = json.loads(json.dumps(m0))
+            if "seed" in m:
+                while True:
+                    sd = {"kind": "int", "v": rng.randint(0, 40)}
+                    if sd["v"] not in seeds_used:
+                        break
+                seeds_used.add(sd["v"])
+                m["seed"] = sd
+            elif name == "take":
+                m["count"] = self.gen_count(rng, len(base["envs"][0]))
+            elif name == "slice":
+                m["start"], m["step"] = rng.choice([None, 0, 1, 2]), rng.choice([None, 1, 2])
+            elif name == "where":
+                m = {"name": "where", "n_interactions": self.gen_range(rng, len(base["envs"][-1]))}
+            methods.append(m)
+        if name in ("eshuffle", "reservoir") and all(m["seed"]["kind"] == "int" and m["seed"]["v"] >= 0 for m in methods) and rng.chance(0.7):
+            how = rng.choice(["seeds=", "seeds"]) if name == "eshuffle" else "seeds="
+            if name == "reservoir":
+                for m in methods:
+                    m["count"], m["strict"] = m0["count"], m0["strict"]
+        for m in methods:
+            m.pop("how", None)
+        nm = len(base["envs"]) * len(methods)
+        order = [[rng.below(nm), None if rng.chance(0.75) else rng.randint(0, 4)] for _ in range(rng.randint(1, 6))]
+        return {"kind": base["kind"], "envs": base["envs"], "op": {"name": "product", "methods": methods, "how": how}, "order": order, "input": base.get("input", "list")}
+
+    def generate_unbatchg(self, rng):
+        """hand-made input for Unbatch: fully batched, un-batched and mixed interactions; values are numbers or (nested) lists"""
+        keys = rng.choice([["c"], ["c", "r"], ["c", "r", "n"]])
+        style = rng.wchoice([(40, "wf"), (15, "plain"), (45, "mixed")])
+        tok = [0]
+
+        def pv(depth=0):
+            tok[0] += 1
+            if depth < 2 and rng.chance(0.3):
+                return [pv(depth + 1) for _ in range(rng.randint(0, 3))]
+            return tok[0]
+        recs = []
+        for ri in range(rng.randint(0, 4)):
+            sz = rng.randint(0, 3)
+            rec = []
+            ks = keys if style != "mixed" or rng.chance(0.8) else [k for k in keys if rng.chance(0.6)]
+            for k in ks:
+                batched = style == "wf" or (style == "mixed" and rng.chance(0.6 if ri == 0 else 0.5))
+                if batched:
+                    rec.append([k, {"col": [pv() for _ in range(sz if style == "wf" or rng.chance(0.7) else rng.randint(0, 3))]}])
+                else:
+                    rec.append([k, {"val": pv()}])
+            if rec:
+                recs.append(rec)
+        return {"kind": "raw", "op": {"name": "unbatchg"}, "recs": recs}
 
     def generate_multi(self, rng, tier, boundary=False):
         """2-3 different environments (a split of one generated sequence: distinct ids, different lengths, possibly empty)
@@ -728,6 +808,17 @@ class C09(Property):
             case["via_env"] = True
         if op["name"] in ("take", "slice", "eshuffle", "sort", "reservoir", "where", "riffle") and n > 0 and rng.chance(0.12) and not malformed:
             case["batchsafe"] = rng.choice([1, 2, 3, n])
+        if op["name"] in POLY_OPS and n >= 2 and rng.chance(0.15) and not malformed:
+            sizes, left = [], n
+            if rng.chance(0.35):
+                sizes.append(0)                           # an empty first batch: batch_size is falsy
+            while left > 0:
+                sz = min(left, rng.choice([1, 2, 2, 3, 5]))
+                sizes.append(sz)
+                left -= sz
+                if rng.chance(0.1):
+                    sizes.append(0)
+            case["bsizes"] = sizes
         if malformed:
             case["malformed"] = True
         return case
@@ -793,6 +884,23 @@ class C09(Property):
                        "order": [[1, None], [0, None], [2, None], [1, 2], [0, None], [1, None]], "input": "list"})
             cs.append({"kind": "sim", "envs": [env(0, 3), env(100, 5)], "op": {"name": "multi", "method": m},
                        "order": [[1, 1], [0, 2], [1, None], [0, None], [1, None]], "input": "gen"})
+        # phase 3: BatchSafe on uneven batches (C04-F7 shape [2,5]) and with an empty first batch; environments x filters;
+        # Unbatch on the witnesses of unbatch_mixed_counterexample 1-3 and on well-formed uneven batches
+        for m in ({"name": "identity"}, {"name": "take", "count": 1, "strict": False}, {"name": "eshuffle", "seed": seed1}, {"name": "reservoir", "count": 2, "strict": False, "seed": seed1}):
+            for sizes in ([2, 5], [0, 3, 4], [3, 0, 4], [1, 1, 5]):
+                cs.append({"kind": "sim", "items": env(0, 7), "op": m, "input": "list", "bsizes": sizes})
+        cs.append({"kind": "sim", "envs": [env(0, 4), env(100, 6)], "op": {"name": "product", "how": "seeds=", "methods": [{"name": "eshuffle", "seed": {"kind": "int", "v": v}} for v in (5, 1, 3)]},
+                   "order": [[4, None], [0, 2], [5, None], [4, None]], "input": "list"})
+        cs.append({"kind": "sim", "envs": [env(0, 4), env(100, 6), env(200, 1)], "op": {"name": "product", "how": "filter", "methods": [{"name": "take", "count": 2, "strict": True}, {"name": "take", "count": 5, "strict": False}]},
+                   "order": [[3, None], [1, 1], [5, None]], "input": "gen"})
+        cs.append({"kind": "sim", "envs": [env(0, 4), env(100, 6)], "op": {"name": "product", "how": "seeds=", "methods": [{"name": "reservoir", "count": 3, "strict": False, "seed": {"kind": "int", "v": v}} for v in (7, 2)]},
+                   "order": [[2, None], [0, None]], "input": "list"})
+        for recs in ([[["c", {"col": [1, 2]}], ["n", {"val": [7, 8]}]], [["c", {"val": [3, 4, 5]}], ["n", {"val": 9}]]],
+                     [[["c", {"col": [1]}]], [["c", {"val": 3}]]],
+                     [[["c", {"val": 1}]], [["c", {"col": [3, 4]}]]],
+                     [[["c", {"col": [1, 2]}], ["r", {"col": [5, 6]}]], [["c", {"col": [3]}], ["r", {"col": [7]}]], [["c", {"col": []}], ["r", {"col": []}]]],
+                     [[["c", {"col": [1]}]], [["r", {"col": [3]}]]]):
+            cs.append({"kind": "raw", "op": {"name": "unbatchg"}, "recs": recs})
         # witnesses of batch_unbatch_id_counterexample / 2 (key sets differ inside one sequence): correspondence only
         cs.append({"kind": "raw", "items": [{"id": 0, "raw": {"a": 1}}, {"id": 1, "raw": {"a": 2, "b": 3}}], "op": {"name": "batch", "size": 2}, "input": "list", "malformed": True})
         cs.append({"kind": "raw", "items": [{"id": 0, "raw": {"a": 1, "b": 3}}, {"id": 1, "raw": {"a": 2}}], "op": {"name": "batch", "size": 2}, "input": "list", "malformed": True})
@@ -825,6 +933,10 @@ class C09(Property):
     def evaluate(self, case, driver):
         if case["op"]["name"] == "multi":
             return self.evaluate_multi(case, driver)
+        if case["op"]["name"] == "product":
+            return self.evaluate_product(case, driver)
+        if case["op"]["name"] == "unbatchg":
+            return self.evaluate_unbatchg(case, driver)
         fails, tags = [], []
         op = case["op"]
         name = op["name"]
@@ -953,6 +1065,38 @@ class C09(Property):
                         if mshape != got["shape"]:
                             fails.append(F("A", "%s: BatchSafe(filter) on %s delivered batches %s, model %s" % (what, "the plain input" if size == 0 else "batches of %d" % size, got["shape"], mshape), "A:batchsafe-model"))
 
+        # ---- BatchSafe(F) on hand-made batches of arbitrary sizes (uneven, an empty first batch): batchsafe_first_batch_size /
+        # batchsafe_falsy_first; the inner filter must treat its items as opaque (selection / ordering filters without accessors)
+        if case.get("bsizes") and "err" not in o1 and not fails and name in POLY_OPS:
+            from coba.environments import filters as EF
+            sizes = case["bsizes"]
+            tags.append("batchsafe2:" + ("empty-first" if sizes[0] == 0 else "uneven"))
+            keys = list(R.items[0].keys()) if R.items else ["id"]
+            try:
+                batches, pos = [], 0
+                for sz in sizes:
+                    chunk = R.items[pos:pos + sz]
+                    pos += sz
+                    batches.append({k: EF.Batch.List([]) for k in keys} if sz == 0 else next(iter(EF.Batch(sz).filter(iter(chunk)))))
+                raw = list(EF.BatchSafe(mk_filter(op)).filter(iter(batches)))
+                shape = [(list(b["id"]) if hasattr(b["id"], "is_batch") else b["id"]) for b in raw]
+                flat = [i for sh in shape for i in (sh if isinstance(sh, list) else [sh])]
+                got = {"shape": shape, "ids": flat}
+            except Exception as e:  # noqa: BLE001
+                got = {"err": errname(e), "msg": str(e)[:100]}
+            impl["batchsafe2"] = got
+            if "err" not in got and sizes[0] > 0 and got["ids"] != o1["ids"]:
+                fails.append(F("A", "%s: BatchSafe(filter) on batches of sizes %s un-batches to %s, the filter alone gives %s" % (what, sizes, got["ids"], o1["ids"]), "A:batchsafe-uneven"))
+            elif driver is not None:
+                m = driver.ask({"op": "batchsafe2", "sizes": sizes, "keys": keys, "inner": self.inner_req(op), "items": model_items(case, with_rec=True)})
+                if "err" in m or "err" in got:
+                    if m.get("err") != got.get("err"):
+                        fails.append(F("A", "%s: BatchSafe(filter) on batches of sizes %s: implementation %s, model %s" % (what, sizes, got.get("shape", got.get("err")), m.get("err", "a result")), "A:batchsafe2-model"))
+                else:
+                    mshape = [[t // 64 for t in dict((k, ts) for k, ts in b["batch"]).get("id", [])] if "batch" in b else (b["plain"][0][1] // 64 if b["plain"] else None) for b in m["batches"]]
+                    if mshape != got["shape"]:
+                        fails.append(F("A", "%s: BatchSafe(filter) on batches of sizes %s delivered %s, model %s" % (what, sizes, got["shape"], mshape), "A:batchsafe2-model"))
+
         # ---- (A) correspondence with the Lean model, (C) model = spec
         model = None
         if driver is not None and not any(f["kind"] == "B" for f in fails):
@@ -1072,6 +1216,154 @@ class C09(Property):
                                    % (what, j, order[j][0], order[j][1], got[j][1], model[j][1] if j < len(model) else None), "A:multi-" + name))
         nontrivial = sum(1 for e in envs if len(e) >= 1) >= 2
         return {"fails": fails, "nontrivial": nontrivial, "tags": tags, "impl": impl, "model": model}
+
+    # ------------------------------------------------------------ environments x filters
+    def evaluate_product(self, case, driver):
+        """Environments(env_0 …).filter([f_0 …]) / .shuffle(seeds=[…]) / .reservoir(n, seeds=[…]): every member must be ONE
+        environment behind ONE of the filters, each pair exactly once, and deliver what that filter promises for that environment"""
+        from coba.environments import Environments
+        from coba.environments.filters import BatchSafe, Finalize
+        from coba.pipes import Pipes
+        fails, tags = [], []
+        methods = case["op"]["methods"]
+        name = methods[0]["name"]
+        envs = case["envs"]
+        mode = case.get("input", "list")
+        subs = [[{"kind": case["kind"], "items": envs[i], "op": methods[j], "input": mode} for j in range(len(methods))] for i in range(len(envs))]
+        runs = [Run(subs[i][0]) for i in range(len(envs))]
+        tags += ["op:product", "product:" + name, "product:%dx%d" % (len(envs), len(methods)), "kind:" + case["kind"]]
+        what = "Environments(%s).%s x %d %s" % (", ".join("env%d[%d]" % (k, len(e)) for k, e in enumerate(envs)), case["op"].get("how", "filter"), len(methods), json.dumps(methods)[:300])
+        impl = {"members": [], "reads": []}
+        cls = _list_env_class()
+        srcs = [cls(r.items, mode, k) for k, r in enumerate(runs)]
+        how = case["op"].get("how", "filter")
+        try:
+            e = Environments(srcs)
+            if how == "filter":
+                objs = [mk_filter(m) for m in methods]
+                e = e.filter(objs)
+            elif name == "eshuffle":
+                seeds = [mk_seed(m["seed"]) for m in methods]
+                e = e.shuffle(seeds=seeds) if how == "seeds=" else e.shuffle(seeds)
+            else:
+                seeds = [mk_seed(m["seed"]) for m in methods]
+                e = e.reservoir(methods[0]["count"], seeds=seeds, strict=methods[0]["strict"])
+            pipes = list(getattr(e, "_envs"))
+        except Exception as ex:  # noqa: BLE001
+            fails.append(F("B", "%s raised %s (%s)" % (what, errname(ex), str(ex)[:100]), "product-%s-method-raises-%s" % (name, errname(ex))))
+            return {"fails": fails, "nontrivial": False, "tags": tags, "impl": impl, "model": None}
+        members = []
+        for pipe in pipes:
+            parts = list(pipe)
+            if isinstance(parts[-1], BatchSafe) and isinstance(getattr(parts[-1], "_filter", None), Finalize):
+                parts = parts[:-1]
+                pipe = Pipes.join(*parts)
+            i = getattr(parts[0], "idx", None)
+            j = None
+            if len(parts) == 2:
+                if how == "filter":
+                    j = next((jj for jj, o in enumerate(objs) if o is parts[1]), None)
+                else:
+                    key = "shuffle_seed" if name == "eshuffle" else "reservoir_seed"
+                    j = next((jj for jj, sd in enumerate(seeds) if parts[1].params.get(key) == sd), None)
+            members.append((i, j, pipe))
+        impl["members"] = [[i, j] for i, j, _ in members]
+        want = sorted((i, j) for i in range(len(envs)) for j in range(len(methods)))
+        if sorted((i, j) for i, j, _ in members if i is not None and j is not None) != want or len(members) != len(want):
+            fails.append(F("B", "%s produced the members %s, expected every (environment, filter) pair exactly once" % (what, impl["members"]), "product-%s-members" % name))
+            return {"fails": fails, "nontrivial": False, "tags": tags, "impl": impl, "model": None}
+        order = [[m, c] for m, c in case["order"] if m < len(members)] + [[m, None] for m in range(len(members))]
+        full, alive = {}, []
+        for step, (m, c) in enumerate(order):
+            i, j, pipe = members[m]
+            R = runs[i]
+            try:
+                g = iter(pipe.read())
+                if c is None:
+                    o = R.describe(list(g))
+                else:
+                    o = R.describe(list(itertools.islice(g, c)))
+                    alive.append(g)
+            except Exception as ex:  # noqa: BLE001
+                o = {"err": errname(ex), "msg": str(ex)[:120]}
+            impl["reads"].append([m, c, o.get("ids", o.get("err"))])
+
+            def bfail(msg, sig, i=i, j=j, step=step):
+                fails.append(F("B", "%s: member (environment #%d, filter #%d %s), read #%d: %s" % (what, i, j, json.dumps(methods[j])[:120], step, msg), "product-" + sig))
+            if c is None:
+                self.promise(subs[i][j], o, bfail, [])
+                if m not in full:
+                    full[m] = o
+                elif not same(full[m], o):
+                    bfail("delivered %s, an earlier complete read of the same member %s" % (o.get("ids", o.get("err")), full[m].get("ids", full[m].get("err"))), name + "-reread-differs")
+            elif "err" in o:
+                bfail("raised %s" % o["err"], "%s-raises-%s" % (name, o["err"]))
+            elif o["bad"]:
+                bfail(o["bad"][0], name + "-content-altered")
+            elif m in full and "ids" in full[m] and o["ids"] != full[m]["ids"][:c]:
+                bfail("delivered %s, a complete read of the same member starts with %s" % (o["ids"], full[m]["ids"][:c]), name + "-partial-read-differs")
+        model = None
+        if driver is not None and not fails:
+            reqs = [self.inner_req(mm) for mm in methods]
+            if all(r is not None for r in reqs):
+                ask = {"op": "product", "inners": reqs, "order": order, "envs": [model_items(subs[i][0]) for i in range(len(envs))], "items": [],
+                       "sorted": name == "eshuffle" and how != "filter", "seedkeys": [mk_seed(mm["seed"]) if "seed" in mm and isinstance(mk_seed(mm["seed"]), int) and mk_seed(mm["seed"]) >= 0 else 0 for mm in methods]}
+                ans = driver.ask(ask)
+                model = {"members": ans["members"], "reads": [[k, r.get("out", r.get("err"))] for k, r in ans["reads"]]}
+                if model["members"] != impl["members"]:
+                    fails.append(F("A", "%s: members in the order %s, model %s" % (what, impl["members"], model["members"]), "A:product-order"))
+                elif model["reads"] != [[m, o] for m, c, o in impl["reads"]]:
+                    got = [[m, o] for m, c, o in impl["reads"]]
+                    jx = next(x for x in range(len(got)) if model["reads"][x] != got[x])
+                    fails.append(F("A", "%s: read #%d of member %s delivers %s, model %s" % (what, jx, impl["members"][got[jx][0]], got[jx][1], model["reads"][jx][1]), "A:product-" + name))
+        return {"fails": fails, "nontrivial": sum(1 for e_ in envs if e_) >= 2, "tags": tags, "impl": impl, "model": model}
+
+    # ------------------------------------------------------------ Unbatch on arbitrary (mixed) input
+    def evaluate_unbatchg(self, case, driver):
+        from coba.environments import filters as EF
+        fails, tags = [], ["op:unbatchg"]
+        recs = case["recs"]
+
+        def build(pv):
+            return [build(x) for x in pv] if isinstance(pv, list) else pv
+
+        def mk(r):
+            return {k: (EF.Batch.List([build(x) for x in c["col"]]) if "col" in c else build(c["val"])) for k, c in r}
+
+        def enc(d):
+            return sorted([k, ({"col": list(v)} if hasattr(v, "is_batch") else {"val": v})] for k, v in d.items())
+        what = "Unbatch on %s" % json.dumps(recs)[:300]
+        try:
+            out = [enc(d) for d in EF.Unbatch().filter(iter([mk(r) for r in recs]))]
+            impl = {"out": out}
+        except Exception as ex:  # noqa: BLE001
+            impl = {"err": errname(ex)}
+        first_batched = bool(recs) and any("col" in c for _, c in recs[0])
+        wf = all(all("col" in c for _, c in r) and len({len(c["col"]) for _, c in r}) == 1 for r in recs)
+        bk = next((k for k, c in recs[0] if "col" in c), None) if recs else None
+        wf = wf and all(any(k == bk for k, _ in r) for r in recs)
+        tags.append("unbatchg:" + ("plain-first" if not first_batched else "well-formed" if wf else "mixed"))
+        # (B) where the property speaks: un-batched input is passed through; fully batched input comes out row by row, in order
+        exp = None
+        if not recs:
+            exp = []
+        elif not first_batched:
+            exp = [sorted([k, c] for k, c in r) for r in recs]
+        elif wf:
+            exp = [sorted([k, {"val": c["col"][i]}] for k, c in r) for r in recs for i in range(len(r[0][1]["col"]) if r else 0)]
+        if exp is not None:
+            if "err" in impl:
+                fails.append(F("B", "%s raised %s" % (what, impl["err"]), "unbatch-raises-" + impl["err"]))
+            elif impl["out"] != exp:
+                fails.append(F("B", "%s delivered %s, expected %s" % (what, json.dumps(impl["out"])[:300], json.dumps(exp)[:300]), "unbatch-wrong-rows"))
+        model = None
+        if driver is not None and not fails:
+            ans = driver.ask({"op": "unbatchg", "recs": recs, "items": []})
+            model = ans
+            mo = {"err": ans["err"]} if "err" in ans else {"out": [sorted(r) for r in ans["out"]]}
+            if mo != impl:
+                fails.append(F("A", "%s: implementation %s, model %s" % (what, json.dumps(impl)[:300], json.dumps(mo)[:300]), "A:unbatchg"))
+        return {"fails": fails, "nontrivial": len(recs) >= 2, "tags": tags, "impl": impl, "model": model}
 
     def promise(self, case, o1, bfail, tags):
         """(B): is `o1` (what one complete read delivered) the sequence this filter promises for this input?"""
@@ -1293,6 +1585,22 @@ class C09(Property):
             yield dict(case, input="list")
 
     def shrink(self, case):
+        if case["op"]["name"] == "unbatchg":
+            recs = case["recs"]
+            for i in range(len(recs)):
+                yield dict(case, recs=recs[:i] + recs[i + 1:])
+                for j in range(len(recs[i])):
+                    if len(recs[i]) > 1:
+                        yield dict(case, recs=recs[:i] + [recs[i][:j] + recs[i][j + 1:]] + recs[i + 1:])
+            return
+        if case["op"]["name"] == "product":
+            envs, order = case["envs"], case["order"]
+            for i in range(len(order)):
+                yield dict(case, order=order[:i] + order[i + 1:])
+            for k, e in enumerate(envs):
+                for i in range(len(e)):
+                    yield dict(case, envs=envs[:k] + [e[:i] + e[i + 1:]] + envs[k + 1:])
+            return
         if case["op"]["name"] == "multi":
             yield from self.shrink_multi(case)
             return
@@ -1336,6 +1644,13 @@ class C09(Property):
                 break
 
     def snippet(self, case):
+        if case["op"]["name"] in ("product", "unbatchg"):
+            return ("# plain reproduction against the coba checkout (no Lean): evaluates the case with the harness monitor only\n"
+                    "import sys, json; sys.path[:0] = [%r, %r]\n"
+                    "from props.c09 import PROPERTY\n"
+                    "out = PROPERTY.evaluate(json.loads(%r), None)\n"
+                    "print(json.dumps(out['impl'], indent=1, default=str)); print(out['fails'])\n"
+                    % (os.environ.get("COBA_REPO", "/repo"), os.path.dirname(os.path.dirname(os.path.abspath(__file__))), json.dumps(case)))
         head = ("# plain reproduction against the coba checkout (no Lean, no engine); prints what the filter delivers\n"
                 "import sys, json, itertools; sys.path[:0] = [%r, %r]\n"
                 "from props.c09 import Run, give\n"
